@@ -11,12 +11,21 @@ package static
 //@ ghost var joinRel string
 //@ ghost var joinRes string
 //@ extern func filepath.Join
-//@   modifies joinRoot, joinRel, joinRes
+//@   modifies joinRoot, joinRel, joinRes, mpClosed
 //@   ensures len(elem) == 2 ==> joinRoot == elem[0] && joinRel == elem[1]
 //@   ensures joinRes == result
+// Multipart answers: the closing delimiter is written (Writer.Close) before the body's length and bytes are taken.
+//@ extern func multipart.NewWriter
+//@   modifies mpClosed
+//@   ensures !mpClosed && result != nil
+//@ extern func (*multipart.Writer).Close
+//@   modifies mpClosed
+//@   ensures mpClosed
 //@ func (*Modifier).ModifyResponse
 //@   serves C20
-//@   modifies joinRoot, joinRel, joinRes
+//@   at call 0 of Bytes before assert[multipart-body-is-complete-before-its-length-is-taken] mpClosed
+//@   at call 1 of Bytes before assert[multipart-body-is-complete-before-its-bytes-are-taken] mpClosed
+//@   modifies joinRoot, joinRel, joinRes, mpClosed
 //@   noframe
 //@   at call 0 of Open before assert[opened-file-is-the-root-joined-with-the-cleaned-request-path-or-its-configured-target] arg0 == joinRes && joinRoot == s.rootPath &&
 //@        (joinRel == filepath.Clean(res.Request.URL.Path) || (has(s.explicitPaths, filepath.Clean(res.Request.URL.Path)) && joinRel == s.explicitPaths[filepath.Clean(res.Request.URL.Path)]))
